@@ -429,6 +429,13 @@ static int run_step(Engine *e, int ci, int kind, int fsm, uint8_t *data, size_t 
         size_t &pos = e->script_pos(ci, kind, fsm);
         Step def;
         def.code = (kind == K_READ || kind == K_TEST) ? RC_DATA_OK : RC_OK;
+        // the step to execute is the one of the matched expectation (a flow can end without a terminal code,
+        // e.g. when re-formatting fails, and the next line starts the script afresh); the own position is only a
+        // fallback for runs without model
+        if (e->mon.matched_step >= -1) {
+                pos = e->mon.matched_step >= 0 ? (size_t)e->mon.matched_step : cs.script[kind].size();
+                e->mon.matched_step = -2;
+        }
         const Step *st = pos < cs.script[kind].size() ? &cs.script[kind][pos++] : &def;
         switch (st->act) {
         case A_SETTEXT:
@@ -1203,7 +1210,7 @@ void Engine::cover()
 
 void Engine::observers()
 {
-        if (!plan.observe || mon.dead())
+        if (!plan.observe || mon.viol.set() || !mon.model_ok())
                 return;
         mon.on_busy(api_busy());
         mon.on_hold_query(api_hold());
@@ -1387,6 +1394,8 @@ void Engine::drain()
         draining = false;
         if (mon.viol.set() || !mon.model_ok())
                 return;
+        if (es.overrun)
+                return; // the run hit the global step budget: no verdict
         if (st != CAT_STATUS_OK) {
                 if (opts.liveness)
                         mon.fail("C15", "no-quiescence-within-bound", "input exhausted and output accepting, but cat_service did not return OK within " + std::to_string(bound) +
@@ -1563,6 +1572,18 @@ void Engine::roundtrip(int ci)
         std::string prefix = "\n" + cs.name + "=";
         size_t a = resp.find(prefix);
         size_t b = a == bytes::npos ? bytes::npos : resp.find("\n", a + prefix.size());
+        // a capacity that cannot hold the text is outside the property: READ may answer ERROR, and then there
+        // is nothing to write back (but a data line that IS printed must round-trip)
+        size_t need = cs.name.size() + 1;
+        for (size_t v = 0; v < cs.vars.size(); v++) {
+                std::string t;
+                fmt_var(cs.vars[v], before[v], t);
+                need += t.size() + (v + 1 < cs.vars.size() ? 1 : 0);
+        }
+        if (need > cmdcap - 1 && (a == bytes::npos || b == bytes::npos)) {
+                es.roundtrip_skipped++;
+                return;
+        }
         if (a == bytes::npos || b == bytes::npos || resp.find("\nOK\n", b) == bytes::npos) {
                 c07("read-response-missing", "AT" + vis(cs.name) + "? did not answer with a data line and OK: \"" + vis(resp) + "\"");
                 return;
